@@ -356,6 +356,25 @@ func (e *Explorer) violation(kind, site, msg string, extra ...*smt.Term) bool {
 		}
 	}
 	r, vals := e.Solver.Check(as, want)
+	if r == smt.Sat && sctx.FloatUF {
+		// floats are uninterpreted: prefer a model whose 32-bit inputs are
+		// "generic" floats (normal, exponents close together, non-zero
+		// mantissa), so that the native replay, which uses real arithmetic,
+		// is likely to show the same difference
+		var gen []*smt.Term
+		for _, d := range e.draws {
+			if d.Term != nil && d.Term.S.W == 32 {
+				ex8 := sctx.Extract(d.Term, 30, 23)
+				gen = append(gen, sctx.BvUle(sctx.BVC(124, 8), ex8), sctx.BvUle(ex8, sctx.BVC(131, 8)),
+					sctx.Not(sctx.Eq(sctx.Extract(d.Term, 22, 0), sctx.BVC(0, 23))))
+			}
+		}
+		if len(gen) > 0 && len(gen) < 3000 {
+			if r2, v2 := e.Solver.Check(append(append([]*smt.Term{}, as...), gen...), want); r2 == smt.Sat {
+				vals = v2
+			}
+		}
+	}
 	switch r {
 	case smt.Unsat:
 		return false
